@@ -1,5 +1,5 @@
 //! `#[derive(DumpParse)]`: runs /repo's own declaration parser (derive/src/parse.rs, included by path, unmodified) on the item and appends,
-//! for every named field, the token tree of its type and the parse result to the file named by $PD_DUMP. Used to tie the Coq model of
+//! for every named field, the token tree of its type and the parse result to the file named by $PD_DUMP. Used to tie the Coq models of `parse_data` (coq/parse/ParseDecl.v: the whole item),
 //! `next_type` (coq/parse/ParseModel.v) and of the printer `Type::full` (coq/parse/ParsePrint.v) to the code.
 extern crate alloc;
 extern crate proc_macro;
@@ -15,12 +15,46 @@ use parse::{Category, ConstValType, Data, Type};
 use proc_macro::{Delimiter, TokenStream, TokenTree};
 use std::io::Write;
 
+/// whitespace and `%` inside a token text are percent-escaped: the dump is split on blanks
+fn esc(s: &str) -> String {
+    let mut o = String::new();
+    for c in s.chars() { match c { ' ' => o.push_str("%20"), '%' => o.push_str("%25"), '\n' => o.push_str("%0A"), '\t' => o.push_str("%09"), '\r' => o.push_str("%0D"), c => o.push(c) } }
+    if o.is_empty() { o.push_str("%00") }
+    o
+}
+fn relex(s: &str) -> String {
+    match s.parse::<TokenStream>() {
+        Err(_) => format!("LEXERROR {}", esc(s)),
+        Ok(ts) => { let v: Vec<TokenTree> = ts.into_iter().collect(); let mut o = String::new(); tt_text(&v, &mut o); o }
+    }
+}
+fn attrs_text(a: &[parse::Attribute]) -> String {
+    a.iter().map(|x| format!("( {}) ", x.tokens.iter().map(|t| esc(t) + " ").collect::<String>())).collect()
+}
+fn sorted(mut v: Vec<String>) -> String { v.sort(); v.iter().map(|x| x.clone() + " ").collect() }
+fn generic_text(g: &parse::Generic) -> String {
+    use parse::Generic as G;
+    match g {
+        G::ConstGeneric { name, _type, default } => format!("C( {} {} {} )", esc(name), ty_text(_type), match default {
+            None => "-".to_string(), Some(ConstValType::Value(v)) => format!("V{}", v), Some(ConstValType::Named(t)) => format!("N {}", ty_text(t)) }),
+        G::Generic { name, default, bounds } => format!("T( [ {}] {} [ {}] )", relex(name), default.as_ref().map(ty_text).unwrap_or_else(|| "-".to_string()), sorted(bounds.iter().map(ty_text).collect())),
+        G::Lifetime { name, bounds } => format!("L( {} [ {}] )", esc(name), sorted(bounds.iter().map(|l| esc(&l.ident)).collect())),
+        G::WhereBounded { name, bounds } => format!("W( [ {}] [ {}] )", relex(name), sorted(bounds.iter().map(ty_text).collect())),
+    }
+}
+fn struct_text(s: &parse::Struct) -> String {
+    format!("name={} named={} attrs=[ {}] generics=[ {}] fields=[ {}]",
+        s.name.as_deref().map(esc).unwrap_or_else(|| "-".to_string()), s.named as u8, attrs_text(&s.attributes),
+        s.generics.iter().map(|g| generic_text(g) + " ").collect::<String>(),
+        s.fields.iter().map(|f| format!("{{ [ {}] {} {} }} ", attrs_text(&f.attributes), f.field_name.as_deref().map(esc).unwrap_or_else(|| "-".to_string()), ty_text(&f.ty))).collect::<String>())
+}
+
 fn tt_text(ts: &[TokenTree], out: &mut String) {
     for t in ts {
         match t {
             TokenTree::Ident(i) => { out.push_str("I "); out.push_str(&i.to_string()); out.push(' '); }
             TokenTree::Punct(p) => { out.push_str("P "); out.push(p.as_char()); out.push(' '); }
-            TokenTree::Literal(l) => { out.push_str("L "); out.push_str(&l.to_string()); out.push(' '); }
+            TokenTree::Literal(l) => { out.push_str("L "); out.push_str(&esc(&l.to_string())); out.push(' '); }
             TokenTree::Group(g) => {
                 let d = match g.delimiter() { Delimiter::Parenthesis => "G(", Delimiter::Bracket => "G[", Delimiter::Brace => "G{", Delimiter::None => "G0" };
                 out.push_str(d); out.push(' ');
@@ -93,7 +127,14 @@ pub fn dump_parse(input: TokenStream) -> TokenStream {
     for w in toks.windows(2) { if let (TokenTree::Ident(a), TokenTree::Ident(b)) = (&w[0], &w[1]) { if a.to_string() == "struct" { sname = b.to_string(); } } }
     let body = toks.iter().rev().find_map(|t| match t { TokenTree::Group(g) if g.delimiter() == Delimiter::Brace => Some(g.stream()), _ => None });
     let fields = body.map(field_type_tokens).unwrap_or_default();
+    // the whole item: token trees as received, and what parse_data makes of them (coq/parse/ParseDecl.v)
+    { let mut t = String::new(); tt_text(&toks, &mut t); text.push_str(&format!("ITEM {} TOKENS {}\n", sname, t)); }
     let parsed = std::panic::catch_unwind(|| parse::parse_data(input));
+    match &parsed {
+        Err(_) => text.push_str(&format!("ITEM {} PARSED PANIC\n", sname)),
+        Ok(Data::Struct(s)) => text.push_str(&format!("ITEM {} PARSED {}\n", sname, struct_text(s))),
+        Ok(_) => text.push_str(&format!("ITEM {} PARSED ENUM\n", sname)),
+    }
     match parsed {
         Err(_) => {
             text.push_str(&format!("STRUCT {} PARSE-PANIC\n", sname));
